@@ -55,12 +55,18 @@ func (f *Frame) lookupLocal(name string, st *State, li *loopInfo) (Bound, bool) 
 			}
 		}
 	}
-	// bindings of the name that are already computed; the closest one dominating the current block wins
-	var cands []ssa.Value
-	var best ssa.Value
-	bestDepth := -1
-	consider := func(v ssa.Value, b *ssa.BasicBlock) {
-		cands = append(cands, v)
+	// bindings of the name that are already computed; the closest one dominating the current block wins.
+	// A binding is either a value (phi, or the value a DebugRef names) or a cell (address-taken variable).
+	type cand struct {
+		v      ssa.Value
+		isCell bool
+	}
+	var best *cand
+	bestDepth, bestPos := -1, -1
+	var any *cand
+	consider := func(v ssa.Value, isCell bool, b *ssa.BasicBlock, pos int) {
+		c := &cand{v, isCell}
+		any = c
 		if f.curBlock == nil || !(b == f.curBlock || b.Dominates(f.curBlock)) {
 			return
 		}
@@ -68,99 +74,69 @@ func (f *Frame) lookupLocal(name string, st *State, li *loopInfo) (Bound, bool) 
 		for x := b; x != nil; x = x.Idom() {
 			d++
 		}
-		if d >= bestDepth {
-			bestDepth, best = d, v
+		if d > bestDepth || (d == bestDepth && pos >= bestPos) {
+			bestDepth, bestPos, best = d, pos, c
 		}
 	}
 	for _, b := range f.fn.Blocks {
-		for _, in := range b.Instrs {
+		for pos, in := range b.Instrs {
 			switch x := in.(type) {
 			case *ssa.Phi:
 				if x.Comment == name {
 					if _, ok := f.vals[x]; ok {
-						consider(x, b)
+						consider(x, false, b, pos)
 					}
 				}
 			case *ssa.Alloc:
 				if x.Comment == name {
 					if _, ok := f.vals[x]; ok {
-						consider(x, b)
+						consider(x, true, b, pos)
 					}
 				}
 			case *ssa.DebugRef:
-				if x.Object() != nil && x.Object().Name() == name && !x.IsAddr {
+				if x.Object() != nil && x.Object().Name() == name {
 					if _, ok := f.vals[x.X]; ok {
-						consider(x.X, b)
-					} else if _, isC := x.X.(*ssa.Const); isC {
-						consider(x.X, b)
+						consider(x.X, x.IsAddr, b, pos)
+					} else if _, isC := x.X.(*ssa.Const); isC && !x.IsAddr {
+						consider(x.X, false, b, pos)
 					}
 				}
 			}
 		}
 	}
-	if best != nil {
-		if _, isAlloc := best.(*ssa.Alloc); !isAlloc {
-			hasAlloc := false
-			for _, c := range cands {
-				if _, ok := c.(*ssa.Alloc); ok {
-					hasAlloc = true
-				}
-			}
-			if !hasAlloc {
-				return Bound{V: f.val(best), T: best.Type()}, true
-			}
-		}
-	}
-	// free variables (closures)
+	// free variables (closures): captured variables are pointers to cells
 	for _, fv := range f.fn.FreeVars {
 		if fv.Name() == name {
-			// captured variables are pointers to cells
-			l, ok := f.locOf(fv)
-			if ok {
-				v := f.vc.load(st, l)
-				return Bound{V: v, T: l.typ}, true
+			if l, ok := f.locOf(fv); ok {
+				return Bound{V: f.vc.load(st, l), T: l.typ}, true
 			}
 		}
 	}
-	if len(cands) == 0 {
-		return Bound{}, false
+	pick := best
+	if pick == nil {
+		pick = any
 	}
-	// prefer allocs (address-taken variables: current content), then the last candidate in a dominating position
-	var pick ssa.Value
-	for _, c := range cands {
-		if a, ok := c.(*ssa.Alloc); ok {
-			pick = a
-			break
+	// an address-taken variable has one cell: its current content is the value, whatever was last assigned
+	for _, b := range f.fn.Blocks {
+		for _, in := range b.Instrs {
+			if a, ok := in.(*ssa.Alloc); ok && a.Comment == name {
+				if _, ok := f.vals[a]; ok && a.Heap {
+					pick = &cand{a, true}
+				}
+			}
 		}
 	}
 	if pick == nil {
-		// all candidates must agree, otherwise ambiguous: take the unique one; if several, the one defined in the loop header or latest
-		uniq := map[ssa.Value]bool{}
-		for _, c := range cands {
-			uniq[c] = true
-		}
-		if len(uniq) == 1 {
-			pick = cands[0]
-		} else {
-			// prefer a phi
-			for c := range uniq {
-				if _, ok := c.(*ssa.Phi); ok {
-					pick = c
-				}
-			}
-			if pick == nil {
-				pick = cands[len(cands)-1]
-			}
-		}
+		return Bound{}, false
 	}
-	if a, ok := pick.(*ssa.Alloc); ok {
-		l, ok := f.locOf(a)
+	if pick.isCell {
+		l, ok := f.locOf(pick.v)
 		if !ok {
 			return Bound{}, false
 		}
 		return Bound{V: f.vc.load(st, l), T: l.typ}, true
 	}
-	return Bound{V: f.val(pick), T: pick.Type()}, true
+	return Bound{V: f.val(pick.v), T: pick.v.Type()}, true
 }
 
 func (e *Env) evalBool(x *Expr) (string, error) {
